@@ -7,6 +7,7 @@ object. The result is the ordered list of file operations
     {"file": name, "op": "write", "offset": int, "data": bytes}
     {"file": name, "op": "truncate", "size": int}
     {"file": name, "op": "close"}
+    {"file": dst, "op": "rename", "src": src}     {"file": name, "op": "unlink"}     (write-to-temp-then-rename schemes)
 materialise(prev_dir, log, n_ops, cut, dest): the folder a process death leaves behind after the first n_ops operations, the
 next one (a write) being cut after `cut` bytes (process-death model: completed writes persist, in order).
 """
@@ -123,14 +124,42 @@ def recording(root):
             return buf
         return io.TextIOWrapper(buf, encoding=encoding, errors=errors, newline=newline)
 
+    def rel(p):
+        try:
+            q = Path(os.fspath(p)).resolve()
+        except TypeError:
+            return None
+        return str(q.relative_to(root)) if str(q).startswith(str(root)) else None
+
+    real_replace, real_rename, real_remove, real_unlink = os.replace, os.rename, os.remove, os.unlink
+
+    def mv(real):
+        def f(src, dst, *a, **k):
+            r = real(src, dst, *a, **k)
+            if rel(src) is not None and rel(dst) is not None:
+                log.append({"file": rel(dst), "op": "rename", "src": rel(src)})
+            return r
+        return f
+
+    def rm(real):
+        def f(path, *a, **k):
+            name = rel(path)
+            r = real(path, *a, **k)
+            if name is not None:
+                log.append({"file": name, "op": "unlink"})
+            return r
+        return f
+
     builtins.open = my_open
     io.open = my_open
+    os.replace, os.rename, os.remove, os.unlink = mv(real_replace), mv(real_rename), rm(real_remove), rm(real_unlink)
     real_h5 = jp.h5py
     jp.h5py = _H5Shim(real_h5, log, root)
     try:
         yield log
     finally:
         builtins.open, io.open = real_open, real_io_open
+        os.replace, os.rename, os.remove, os.unlink = real_replace, real_rename, real_remove, real_unlink
         jp.h5py = real_h5
 
 
@@ -149,6 +178,7 @@ def materialise(prev_dir, log, n_ops, cut, dest):
         if name not in handles:
             p = dest / name
             if not p.exists():
+                p.parent.mkdir(parents=True, exist_ok=True)
                 p.touch()
             handles[name] = open(p, "r+b")  # noqa: SIM115
         return handles[name]
@@ -168,6 +198,16 @@ def materialise(prev_dir, log, n_ops, cut, dest):
             f.write(op["data"])
         elif op["op"] == "truncate":
             fh(op["file"], True).truncate(op["size"])
+        elif op["op"] in ("rename", "unlink"):
+            for nm in (op["file"], op.get("src")):
+                if nm in handles:
+                    handles.pop(nm).close()
+            if op["op"] == "rename":
+                if (dest / op["src"]).exists():
+                    (dest / op["file"]).parent.mkdir(parents=True, exist_ok=True)
+                    os.replace(dest / op["src"], dest / op["file"])
+            elif (dest / op["file"]).exists():
+                os.unlink(dest / op["file"])
     for f in handles.values():
         f.close()
     return dest
